@@ -37,6 +37,7 @@ typedef struct {
     unsigned char *blob;
     size_t blob_len;
     int stream_open;
+    int sm_ok; /* conn->sm_state is known to be NULL or valid (not left behind by a refused restore) */
 } vc_t;
 
 typedef struct {
@@ -162,12 +163,15 @@ static void linkage(xmpp_send_queue_t *head, xmpp_send_queue_t *tail)
     putchar(B ? 'B' : 'b');
 }
 
-static void dump_conn(xmpp_conn_t *c)
+/* deref_sm = 0: after a refused restore the application cannot look into conn->sm_state (the type is
+   opaque); only whether the pointer is set is reported */
+static void dump_conn2(xmpp_conn_t *c, int deref_sm)
 {
     xmpp_send_queue_t *e;
     size_t n;
     printf("st=%d;neg=%d;", (int)c->state, c->stream_negotiation_completed);
-    if (c->sm_state) {
+    if (c->sm_state && !deref_sm) printf("sm=!;");
+    else if (c->sm_state) {
         xmpp_sm_state_t *s = c->sm_state;
         printf("sm=1;s=%u;h=%u;id=", s->sm_sent_nr, s->sm_handled_nr);
         put_text(s->id, s->id ? strlen(s->id) : 0);
@@ -183,7 +187,7 @@ static void dump_conn(xmpp_conn_t *c)
                e->userdata == NULL ? 0 : (e->userdata == (void *)e->prev ? 1 : 2));
     }
     if (!n) putchar('-');
-    if (c->sm_state) {
+    if (c->sm_state && deref_sm) {
         printf(";mq=");
         n = 0;
         for (e = c->sm_state->sm_queue.head; e && n < WALK_LIMIT; e = e->next, n++) {
@@ -196,11 +200,12 @@ static void dump_conn(xmpp_conn_t *c)
     }
     printf(";lk=");
     linkage(c->send_queue_head, c->send_queue_tail);
-    if (c->sm_state) {
+    if (c->sm_state && deref_sm) {
         putchar('/');
         linkage(c->sm_state->sm_queue.head, c->sm_state->sm_queue.tail);
     }
 }
+static void dump_conn(xmpp_conn_t *c) { dump_conn2(c, 1); }
 
 /* ---------------------------------------------------------------- snapshot + native twin */
 static char *dupn(const char *d, size_t n)
@@ -342,6 +347,7 @@ static void run_ops(vc_t *v, char **tok, int n)
                 c->sm_state = strophe_alloc(v->ctx, sizeof(*c->sm_state));
                 memset(c->sm_state, 0, sizeof(*c->sm_state));
                 c->sm_state->ctx = v->ctx;
+                v->sm_ok = 1;
             }
             c->state = XMPP_STATE_CONNECTED;
             c->stream_negotiation_completed = 1;
@@ -429,8 +435,9 @@ static void scenario(char *line)
     vc_new(&rst);
     rc = xmpp_conn_restore_sm_state(rst.conn, blob, bloblen);
     free(blob);
+    rst.sm_ok = rc == 0 || rst.conn->sm_state == NULL;
     printf(" rc=%d rst=", rc);
-    dump_conn(rst.conn);
+    dump_conn2(rst.conn, rst.sm_ok);
     if (rc == 0 && rst.conn->sm_state) {
         if (!have_snap) { snapshot(rst.conn, &sn); have_snap = 1; }
         if (!sn.has_nul) {
@@ -444,7 +451,7 @@ static void scenario(char *line)
     printf(" ops=");
     run_ops(&rst, tok + first, ntok - first);
     printf(" fin=");
-    dump_conn(rst.conn);
+    dump_conn2(rst.conn, rst.sm_ok);
     if (have_twin) {
         printf(" tops=");
         run_ops(&twin, tok + first, ntok - first);
